@@ -15,7 +15,7 @@ vars == <<s, in, out, cfg, bursts, prevstart>>
 CfgSet == IF HasCfg THEN {[hr |-> FALSE, lb |-> FALSE, ns |-> FALSE], [hr |-> TRUE, lb |-> FALSE, ns |-> TRUE],
                           [hr |-> FALSE, lb |-> TRUE, ns |-> FALSE]}
           ELSE {[hr |-> FALSE, lb |-> FALSE, ns |-> FALSE]}
-NoRec == [start |-> FALSE, rdy |-> FALSE, hr |-> FALSE, lb |-> FALSE, ns |-> FALSE, ow |-> NoWord, done |-> FALSE,
+NoRec == [start |-> FALSE, rdy |-> FALSE, hr |-> FALSE, lb |-> FALSE, ns |-> FALSE, ow |-> NoWord, done |-> FALSE, rst |-> FALSE,
           iw |-> NoWord, det |-> FALSE, dhr |-> FALSE, dlb |-> FALSE, dsd |-> FALSE]
 Init == /\ s = SInit /\ in = NoRec /\ out = <<>> /\ cfg \in CfgSet /\ bursts = 0 /\ prevstart = FALSE
 
